@@ -285,3 +285,327 @@ Proof.
     cbn [length]. rewrite app_length. cbn [length]. rewrite app_length. lia.
 Qed.
 End ConvArrTotal.
+
+(* ------------------------------------------------------------------------- *)
+(* Part 3: every element is printed                                           *)
+Lemma print_scalar_total o v cols : scalar v -> exists r, print_scalar o v cols = Some r.
+Proof.
+  destruct v; cbn [scalar]; intros Hs; try contradiction; cbn [print_scalar]; eauto.
+  - destruct (print_string o false s cols). eauto.
+  - destruct (print_string o true s cols). eauto.
+Qed.
+
+Lemma conv_yes_compress o args size c kk : convert_to_range o args size = CYes c kk -> compress o = true.
+Proof.
+  unfold convert_to_range. destruct (compress o); [reflexivity|].
+  cbn [negb]. rewrite !orb_true_r. discriminate.
+Qed.
+
+Section PrintTotal.
+Variables dec2f dec2d : list Z -> Z.
+Variable o : popts.
+Variables zf zd : Z.
+Hypothesis Hz : zchoice zf zd.
+
+Lemma goodca_flat_sa l : Forall (goodca o zf zd) l -> Forall sa l /\ Forall (inrv zf zd) l.
+Proof.
+  intros H. split; eapply Forall_impl; try exact H; [exact (goodca_sa o zf zd)|exact (goodca_inrv o zf zd)].
+Qed.
+
+(* one value, a repetition or a range, as the loops print it *)
+Lemma print_conv_total fu a0 rest size cols prev :
+  goodc o zf zd a0 -> Forall (goodca o zf zd) rest -> Z.of_nat (length (a0 :: rest)) < 2 ^ 31 ->
+  size <= Z.of_nat (length (a0 :: rest)) ->
+  exists cv, convert_to_range o (a0 :: rest) size = cv /\ cv <> CUnmod /\
+    exists r, print_arg_val_f (S (S fu)) o (match cv with CYes c _ => c | _ => a0 :: rest end) cols prev = Some r.
+Proof.
+  intros Hg0 Hgr Hlen Hsz.
+  destruct (goodc_facts o zf zd a0 Hg0) as (Hs0 & Hi0 & Hex0).
+  destruct (goodca_flat_sa rest Hgr) as [Hsar Hinr].
+  assert (Hsa : Forall sa (a0 :: rest)) by (constructor; [now apply scalar_sa|exact Hsar]).
+  assert (Hin : Forall (inrv zf zd) (a0 :: rest)) by (constructor; assumption).
+  pose proof (conv_total_scalar zf zd o a0 rest size Hz Hex0 Hsar Hin Hsz) as Hnu.
+  destruct (convert_to_range o (a0 :: rest) size) as [|c kk|] eqn:Ecv; [| |congruence].
+  - exists CNo. split; [reflexivity|]. split; [discriminate|].
+    rewrite (pav_scalar o a0 rest cols prev (S fu) Hs0).
+    destruct (print_scalar_total o a0 cols Hs0) as [[[t w] c'] E]. rewrite E. eauto.
+  - exists (CYes c kk). split; [reflexivity|]. split; [discriminate|].
+    pose proof (conv_yes_compress _ _ _ _ _ Ecv) as Hon.
+    destruct (range_expand_shape_sa zf zd (proj1 Hz) (proj2 Hz) o (a0 :: rest) size c kk Hsa Hin Hex0 Hlen Ecv)
+      as (n & -> & Hn5 & Hexp & Hshape & Hle).
+    destruct Hn5 as [Hn5 Hnl].
+    destruct Hshape as [[[y Ec] Hrep]|(k & d & x & y & Ec & Hdr & Hhd & Hd0 & Hexj)]; subst c; cbn [hd] in *.
+    + rewrite (print_range_const_eq o Hon fu (Z.of_nat n) a0 y cols prev ltac:(lia) Hs0).
+      destruct (print_scalar_total o a0 (cols + len (dec_nat (Z.of_nat n) ++ [120])) Hs0) as [[[t w] c'] E].
+      rewrite E. eauto.
+    + subst a0.
+      assert (Hex : forall j, (j < n)%nat -> wr k (x + Z.of_nat j * d) = x + Z.of_nat j * d)
+        by (intros j Hj; apply wr_id; apply (Hexj j Hj)).
+      assert (Hsec : wr k (x + 1 * d) = x + d)
+        by (replace 1 with (Z.of_nat 1) by reflexivity; rewrite Hex by lia; lia).
+      destruct (print_range_delta fu o k d x (Z.of_nat n) y cols prev (wr k (x + (Z.of_nat n - 1) * d)) Hon ltac:(lia) Hd0 Hsec eq_refl)
+        as (sp & t' & c' & _ & Hpr & _).
+      rewrite Hpr. eauto.
+Qed.
+(* the loop over the elements of an array *)
+Lemma print_array_loop_total parr fu : forall fuel es more prev i n acc (first bb : bool) wrt cols awtl,
+  Forall (goodc o zf zd) es -> Forall (goodca o zf zd) more -> Z.of_nat (length (es ++ more)) < 2 ^ 31 ->
+  n + 1 - i = Z.of_nat (length es) -> (length es < fuel)%nat ->
+  exists res, print_array_loop (print_arg_val_f (S (S fu))) parr fuel o (es ++ more) prev i n acc first bb wrt cols awtl
+              = Some res.
+Proof.
+  induction fuel as [|fuel IH]; intros es more prev i n acc first bb wrt cols awtl Hg Hgm Hlen Hn Hf; [lia|].
+  destruct es as [|a0 es'].
+  - cbn [app print_array_loop]. cbn [length] in Hn. replace (n <? i) with true by lia. eauto.
+  - set (rest := es' ++ more). change ((a0 :: es') ++ more) with (a0 :: rest) in *.
+    assert (Hgr : Forall (goodca o zf zd) rest).
+    { unfold rest. apply Forall_app. split; [|exact Hgm].
+      eapply Forall_impl; [|exact (Forall_inv_tail Hg)]. intros a Ha. now left. }
+    cbn [print_array_loop]. cbn [length] in Hn. replace (n <? i) with false by lia.
+    destruct (print_conv_total fu a0 rest (n + 1 - i) cols prev (Forall_inv Hg) Hgr Hlen
+                ltac:(unfold rest; cbn [length]; rewrite app_length; lia))
+      as (cv & Ecv & Hnu & r & Hr).
+    rewrite Ecv.
+    assert (Hty : hd_type (a0 :: rest) =? 97 = false)
+      by (destruct (goodc_facts o zf zd a0 (Forall_inv Hg)) as (Hs0 & _); destruct a0; cbn in Hs0; try contradiction; reflexivity).
+    destruct cv as [|c kk|]; [| |congruence].
+    1: rewrite Hty.
+    2: destruct (conv_yes_head o _ _ _ _ Ecv) as (n0 & h0 & r0 & Ec0); rewrite Ec0;
+       cbn [hd_type av_type]; change (45 =? 97) with false; cbv iota; rewrite <- Ec0.
+    all: rewrite Hr; destruct r as [[[t tmp] cols1] bb1].
+    all: match type of Ecv with _ = ?cv =>
+           destruct (print_iter_any_sa dec2f dec2d o fu zf zd Hz a0 rest (n + 1 - i) prev t tmp cols cols1 bb1 cv
+                       (Forall_inv Hg) Hgr Hlen Ecv ltac:(discriminate) Hr)
+             as (its1 & inc & -> & -> & Hinc & Hrange & Horig & Hit & Hnth & Hle & Hnc) end.
+    all: cbn [andb]; cbv beta iota.
+    all: destruct (lb_check (linelength o) cols1 (len t) awtl) as [[brk_ cols2] awtl2] eqn:Elb.
+    all: rewrite <- Hinc.
+    all: assert (Hsk : skipz (Z.of_nat inc) (a0 :: rest) = skipn inc (a0 :: es') ++ more)
+           by (unfold skipz; rewrite Nat2Z.id; change (a0 :: rest) with ((a0 :: es') ++ more); rewrite skipn_app;
+               replace (inc - length (a0 :: es'))%nat with 0%nat by (cbn [length] in *; lia); reflexivity).
+    all: rewrite Hsk.
+    all: apply IH;
+         [rewrite <- (firstn_skipn inc (a0 :: es')) in Hg; now apply Forall_app in Hg as [_ Hg]
+         |exact Hgm
+         |rewrite app_length, skipn_length; change (a0 :: rest) with ((a0 :: es') ++ more) in Hlen;
+          rewrite app_length in Hlen; cbn [length] in *; lia
+         |rewrite skipn_length; cbn [length] in *; lia
+         |rewrite skipn_length; cbn [length] in *; lia].
+Qed.
+
+(* an array as an element of the list or behind "Nx" *)
+Lemma print_array_total parr fu ty es more cols blank :
+  Forall (goodc o zf zd) es -> Forall (goodca o zf zd) more -> Z.of_nat (length (es ++ more)) < 2 ^ 31 ->
+  exists r, print_array (print_arg_val_f (S (S fu))) parr o (VArr ty (Z.of_nat (length es)) :: es ++ more) cols blank = Some r.
+Proof.
+  intros Hg Hgm Hlen. unfold print_array. destruct (Z.of_nat (length es) =? 0); [eauto|].
+  destruct (print_array_loop_total parr fu (S (length (es ++ more))) es more None 1 (Z.of_nat (length es)) [91] true false 1
+              (cols + 1) (if (cols =? 0) || negb blank then 0 else 1) Hg Hgm Hlen ltac:(lia)
+              ltac:(rewrite app_length; lia)) as [[[[t w] c] bb] E].
+  rewrite E. eauto.
+Qed.
+End PrintTotal.
+
+(* ------------------------------------------------------------------------- *)
+(* Part 4: the loop of rtosc_print_arg_vals                                   *)
+Lemma lb_check_first ll c inc : lb_check ll c inc 0 = (false, c, 1).
+Proof. unfold lb_check. cbn [Z.add Z.ltb Z.compare Pos.compare Pos.compare_cont]. now rewrite andb_false_r. Qed.
+
+Lemma print_arr_f_S f o args cols blank :
+  print_arr_f (S f) o args cols blank = print_array (print_arg_val_f f) (print_arr_f f) o args cols blank.
+Proof. reflexivity. Qed.
+
+Section LoopTotal.
+Variables dec2f dec2d : list Z -> Z.
+Variable o : popts.
+Variables zf zd : Z.
+Hypothesis Hz : zchoice zf zd.
+
+(* one iteration leads to the loop on the rest of the list *)
+Definition next_ok (tvs : list tv) (f : nat) (X : option (list Z * Z)) (i n : Z) : Prop :=
+  exists tvs2 prev2 inc acc2 (pend2 : bool) wrt2 cols2 awtl2,
+    X = print_vals_loop f o (flat tvs2) prev2 (i + Z.of_nat inc) n acc2 pend2 wrt2 cols2 awtl2 /\
+    Forall (goodt o zf zd) tvs2 /\ length (flat tvs) = (inc + length (flat tvs2))%nat /\ (1 <= inc)%nat /\
+    (pend2 = false -> tvs2 = []).
+
+Lemma step_total_val f v tvs' prev i n acc (pend : bool) wrt cols awtl :
+  goodc o zf zd v -> Forall (goodt o zf zd) tvs' -> Z.of_nat (length (flat (TS v :: tvs'))) < 2 ^ 31 ->
+  n = i + Z.of_nat (length (flat (TS v :: tvs'))) -> (pend = false -> awtl = 0) ->
+  next_ok (TS v :: tvs') f (print_vals_loop (S f) o (flat (TS v :: tvs')) prev i n acc pend wrt cols awtl) i n.
+Proof.
+  intros Hgv Hg Hlen Hn Hpe.
+  change (flat (TS v :: tvs')) with (v :: flat tvs') in *. set (rest := flat tvs') in *.
+  assert (Hgr : Forall (goodca o zf zd) rest) by (apply goodt_flat; exact Hg).
+  cbn [print_vals_loop]. cbn [length] in Hn. replace (n <=? i) with false by lia.
+  destruct (goodc_facts o zf zd v Hgv) as (Hs0 & _).
+  destruct (print_conv_total o zf zd Hz 4 v rest (n - i) cols prev Hgv Hgr Hlen ltac:(cbn [length]; lia))
+    as (cv & Ecv & Hnu & r & Hr).
+  rewrite Ecv. destruct cv as [|cc kk|]; [| |congruence].
+  1: rewrite top_plain by (destruct v; cbn in Hs0; try contradiction; cbn; lia).
+  2: destruct (conv_yes_head o _ _ _ _ Ecv) as (n0 & h0 & r0 & Ec0); rewrite Ec0;
+     rewrite top_plain by (cbn; lia); rewrite <- Ec0.
+  all: unfold print_arg_val; rewrite Hr; destruct r as [[[t tmp] cols1] bb].
+  all: match type of Ecv with _ = ?cv =>
+         destruct (print_iter_any_sa dec2f dec2d o 4 zf zd Hz v rest (n - i) prev t tmp cols cols1 bb cv Hgv Hgr Hlen Ecv
+                     ltac:(discriminate) Hr)
+           as (its1 & inc & -> & -> & Hinc & Hrange & Horig & Hit & Hnth & _ & Hnc) end.
+  all: destruct (if breaks_itself (av_type v) then (false, cols1, awtl)
+                 else lb_check (linelength o) cols1 (len t) awtl) as [[brk_ cols2] awtl2] eqn:Elb.
+  all: assert (Hbrk : brk_ && negb pend = false)
+         by (destruct pend; [now rewrite andb_false_r|]; rewrite (Hpe eq_refl), lb_check_first in Elb;
+             destruct (breaks_itself (av_type v)); inversion Elb; reflexivity).
+  all: rewrite orb_false_r, Hbrk.
+  all: rewrite <- Hinc.
+  all: assert (Hsk : skipz (Z.of_nat inc) (v :: rest) = skipn inc (v :: rest)) by (unfold skipz; now rewrite Nat2Z.id).
+  all: rewrite Hsk.
+  all: assert (Hli : length (iorig its1) = inc) by (rewrite Horig, firstn_length; lia).
+  all: destruct (flat_split_scalars (iorig its1) (TS v :: tvs') (iter_orig_scalar dec2f dec2d _ _ _ Hit)
+                   ltac:(change (flat (TS v :: tvs')) with (v :: rest); rewrite Hli; lia)
+                   ltac:(change (flat (TS v :: tvs')) with (v :: rest); rewrite Hli; symmetry; exact Horig))
+         as (tvs2 & Etv).
+  all: assert (Hsk2 : skipn inc (v :: rest) = flat tvs2)
+         by (change (v :: rest) with (flat (TS v :: tvs')); rewrite Etv, flat_app, flat_scalars, skipn_app, <- Hli,
+             skipn_all, Nat.sub_diag; reflexivity).
+  all: rewrite Hsk2.
+  all: assert (Hlen2 : length (v :: rest) = (inc + length (flat tvs2))%nat)
+         by (rewrite <- Hsk2, skipn_length; lia).
+  all: assert (Hg2 : Forall (goodt o zf zd) tvs2)
+         by (assert (Hall : Forall (goodt o zf zd) (TS v :: tvs')) by (constructor; assumption);
+             rewrite Etv in Hall; now apply Forall_app in Hall as [_ Hall]).
+  all: destruct (i + Z.of_nat inc <? n) eqn:Ein.
+  all: eexists tvs2, _, inc, _, _, _, _, _; split; [reflexivity|].
+  all: split; [exact Hg2|]. all: split; [exact Hlen2|]. all: split; [lia|].
+  all: first [intros E; discriminate E
+             |intros _; apply length_zero_iff_nil; pose proof (flat_len tvs2); apply Z.ltb_ge in Ein; cbn [length] in *; lia].
+Qed.
+Lemma step_total_arr f ty es tvs' prev i n acc (pend : bool) wrt cols awtl :
+  Forall (goodc o zf zd) es -> homog es -> Forall (goodt o zf zd) tvs' ->
+  Z.of_nat (length (flat (TA ty es :: tvs'))) < 2 ^ 31 ->
+  n = i + Z.of_nat (length (flat (TA ty es :: tvs'))) ->
+  next_ok (TA ty es :: tvs') f (print_vals_loop (S f) o (flat (TA ty es :: tvs')) prev i n acc pend wrt cols awtl) i n.
+Proof.
+  intros Hges Hh Hg Hlen Hn.
+  assert (Eargs : flat (TA ty es :: tvs') = VArr ty (Z.of_nat (length es)) :: es ++ flat tvs') by reflexivity.
+  assert (Hgm : Forall (goodca o zf zd) (flat tvs')) by (apply goodt_flat; exact Hg).
+  assert (Hpos : (1 <= length (flat (TA ty es :: tvs')))%nat) by (rewrite Eargs; cbn [length]; lia).
+  assert (Hlenargs : length (flat (TA ty es :: tvs')) = (S (length es) + length (flat tvs'))%nat)
+    by (rewrite Eargs; cbn [length]; rewrite app_length; lia).
+  cbn [print_vals_loop]. replace (n <=? i) with false by lia.
+  rewrite Eargs at 1. cbv iota.
+  pose proof (conv_array_total o zf zd Hz es Hges ty tvs' (n - i) Hg ltac:(lia)) as Hnu.
+  destruct (convert_to_range o (flat (TA ty es :: tvs')) (n - i)) as [|cc kk|] eqn:Ecv; [| |congruence].
+  - (* the array itself *)
+    rewrite Eargs. cbn [print_arg_val_top].
+    destruct (print_array_total dec2f dec2d o zf zd Hz print_arr 4 ty es (flat tvs') cols pend Hges Hgm
+                ltac:(rewrite Eargs in Hlen; cbn [length] in Hlen; lia)) as [[[[t tmp] cols1] bb] Epr].
+    unfold print_arg_val. rewrite Epr.
+    destruct (print_arr_elem dec2f dec2d o zf zd Hz 4 print_arr ty es (flat tvs') cols pend t tmp cols1 bb Hges Hh Hgm
+                ltac:(rewrite Eargs in Hlen; cbn [length] in Hlen; lia) Epr)
+      as (its & T & -> & -> & _ & _ & _ & Hbb & _).
+    change (breaks_itself (av_type (VArr ty (Z.of_nat (length es))))) with true. cbv iota. cbn [orb].
+    assert (Hb : bb && negb pend = false) by (destruct pend; [now rewrite andb_false_r|now rewrite (Hbb eq_refl)]).
+    rewrite Hb. cbn [next_arg_offset].
+    assert (Hsk : skipz (Z.of_nat (length es) + 1) (VArr ty (Z.of_nat (length es)) :: es ++ flat tvs') = flat tvs')
+      by (rewrite <- Eargs; exact (skip_block ty es tvs')).
+    rewrite Hsk.
+    destruct (i + (Z.of_nat (length es) + 1) <? n) eqn:Ein.
+    all: eexists tvs', _, (S (length es)), _, _, _, _, _.
+    all: replace (i + Z.of_nat (S (length es))) with (i + (Z.of_nat (length es) + 1)) by lia.
+    all: split; [reflexivity|]. all: split; [exact Hg|]. all: split; [exact Hlenargs|]. all: split; [lia|].
+    all: first [intros E; discriminate E
+               |intros _; apply length_zero_iff_nil; pose proof (flat_len tvs'); apply Z.ltb_ge in Ein; lia].
+  - (* five or more equal arrays *)
+    destruct (conv_array o zf zd Hz es Hges ty tvs' (n - i) (CYes cc kk) Hg ltac:(lia) Ecv ltac:(discriminate))
+      as [Hcn|(tys & rest2 & y & Etv & Hm4 & Ecy)]; [discriminate|].
+    set (m := S (length tys)) in *.
+    assert (Ecc : cc = VRep (Z.of_nat m) 0 :: VArr ty (Z.of_nat (length es)) :: es ++ [VSpc y]) by congruence.
+    assert (Ekk : kk = Z.of_nat (m * S (length es))) by congruence.
+    pose proof (conv_yes_compress _ _ _ _ _ Ecv) as Hon.
+    clear Ecy. subst cc kk tvs'.
+    rewrite top_plain by (cbn; lia). unfold print_arg_val. rewrite pavf_rep.
+    unfold print_range. rewrite Hon. cbn [negb orb].
+    assert (Em0 : (Z.of_nat m =? 0) = false) by (apply Z.eqb_neq; unfold m; lia).
+    rewrite Em0. cbn [Z.eqb negb]. cbv iota.
+    rewrite (print_arr_f_S 4).
+    destruct (print_array_total dec2f dec2d o zf zd Hz (print_arr_f 4) 2 ty es [VSpc y] (cols + len (print_d (Z.of_nat m) ++ [120])) false Hges
+                ltac:(constructor; [right; right; eauto|constructor])
+                ltac:(rewrite Eargs in Hlen; cbn [length] in Hlen; rewrite !app_length in *; cbn [length] in *; lia))
+      as [[[[t tmp] cols1] bb] Epr].
+    rewrite Epr.
+    change (breaks_itself (av_type (VArr ty (Z.of_nat (length es))))) with true. cbv iota. cbn [orb andb].
+    assert (Hblk : forall l, length (flat (arrs es l)) = (length l * S (length es))%nat).
+    { clear. intros l. induction l as [|t0 l IHl]; [reflexivity|].
+      change (arrs es (t0 :: l)) with (TA t0 es :: arrs es l).
+      unfold flat in *. cbn [map concat tv_flat length]. rewrite app_length, IHl. cbn [length]. lia. }
+    assert (Eall : flat (TA ty es :: arrs es tys ++ rest2) = flat (arrs es (ty :: tys) ++ rest2)) by reflexivity.
+    assert (Hla : length (flat (TA ty es :: arrs es tys ++ rest2)) = (m * S (length es) + length (flat rest2))%nat)
+      by (rewrite Eall, flat_app, app_length, Hblk; reflexivity).
+    assert (Hsk : skipz (Z.of_nat (m * S (length es))) (flat (TA ty es :: arrs es tys ++ rest2)) = flat rest2)
+      by (unfold skipz; rewrite Nat2Z.id, Eall; exact (skip_blocks es (ty :: tys) rest2)).
+    rewrite Hsk.
+    assert (Hg2 : Forall (goodt o zf zd) rest2) by (now apply Forall_app in Hg as [_ Hg]).
+    destruct (i + Z.of_nat (m * S (length es)) <? n) eqn:Ein.
+    all: eexists rest2, _, (m * S (length es))%nat, _, _, _, _, _.
+    all: split; [reflexivity|]. all: split; [exact Hg2|]. all: split; [exact Hla|]. all: split; [unfold m; lia|].
+    all: first [intros E; discriminate E
+               |intros _; apply length_zero_iff_nil; pose proof (flat_len rest2); apply Z.ltb_ge in Ein; rewrite Hla in Hn; lia].
+Qed.
+
+Lemma print_loop_total : forall fuel tvs prev i n acc (pend : bool) wrt cols awtl,
+  Forall (goodt o zf zd) tvs -> Z.of_nat (length (flat tvs)) < 2 ^ 31 -> n = i + Z.of_nat (length (flat tvs)) ->
+  (length (flat tvs) < fuel)%nat -> (pend = false -> awtl = 0 \/ tvs = []) ->
+  exists res, print_vals_loop fuel o (flat tvs) prev i n acc pend wrt cols awtl = Some res.
+Proof.
+  induction fuel as [|fuel IH]; intros tvs prev i n acc pend wrt cols awtl Hg Hlen Hn Hf Hpe; [lia|].
+  destruct tvs as [|t tvs'].
+  - cbn [flat map concat print_vals_loop]. cbn in Hn. replace (n <=? i) with true by lia. eauto.
+  - assert (Hpe' : pend = false -> awtl = 0) by (intros E; destruct (Hpe E) as [H|H]; [exact H|discriminate]).
+    assert (Hstep : next_ok (t :: tvs') fuel (print_vals_loop (S fuel) o (flat (t :: tvs')) prev i n acc pend wrt cols awtl) i n).
+    { destruct t as [v|ty es].
+      - exact (step_total_val fuel v tvs' prev i n acc pend wrt cols awtl (Forall_inv Hg) (Forall_inv_tail Hg) Hlen Hn Hpe').
+      - destruct (Forall_inv Hg) as [Hges Hh].
+        exact (step_total_arr fuel ty es tvs' prev i n acc pend wrt cols awtl Hges Hh (Forall_inv_tail Hg) Hlen Hn). }
+    destruct Hstep as (tvs2 & prev2 & inc & acc2 & pend2 & wrt2 & cols2 & awtl2 & -> & Hg2 & Hl2 & Hinc & Hp2).
+    apply IH; [exact Hg2|lia|lia|lia|].
+    intros E. right. exact (Hp2 E).
+Qed.
+
+(* THE PRINTER MODEL IS TOTAL on the lists of the round-trip theorems *)
+Theorem print_mixed_total tvs :
+  Forall (goodt o zf zd) tvs -> Z.of_nat (length (flat tvs)) < 2 ^ 31 ->
+  exists text w, print_arg_vals o (flat tvs) 0 = Some (text, w).
+Proof.
+  intros Hg Hlen. unfold print_arg_vals.
+  destruct (print_loop_total (S (length (flat tvs))) tvs None 0 (Z.of_nat (length (flat tvs))) [] false 0 0
+              (if 0 =? 0 then 0 else 1) Hg Hlen ltac:(lia) ltac:(lia) ltac:(intros _; left; reflexivity)) as [[text w] E].
+  eauto.
+Qed.
+
+Theorem print_message_mixed_total addr tvs :
+  Forall (goodt o zf zd) tvs -> Z.of_nat (length (flat tvs)) < 2 ^ 31 ->
+  exists text w, print_message o addr (flat tvs) 0 = Some (text, w).
+Proof.
+  intros Hg Hlen. unfold print_message.
+  destruct (print_loop_total (S (length (flat tvs))) tvs None 0 (Z.of_nat (length (flat tvs))) addr true 0
+              (0 + (len addr + 1)) (if 0 + (len addr + 1) =? 0 then 0 else 1) Hg Hlen ltac:(lia) ltac:(lia)
+              ltac:(intros E; discriminate E)) as [[text w] E].
+  rewrite E. eauto.
+Qed.
+End LoopTotal.
+
+(* with the condition on the zeroes at list level *)
+Theorem print_mixed_total_nz o tvs :
+  Forall (goodtv o) tvs -> nozmix (scalars tvs) -> Z.of_nat (length (flat tvs)) < 2 ^ 31 ->
+  exists text w, print_arg_vals o (flat tvs) 0 = Some (text, w).
+Proof.
+  intros Hg Hnz. destruct (zero_choice o (scalars tvs) (goodtv_scalars o tvs Hg) Hnz) as (zf & zd & Hz & Hg').
+  exact (print_mixed_total (fun _ => 0) (fun _ => 0) o zf zd Hz tvs (goodt_of o zf zd tvs Hg Hg')).
+Qed.
+
+Theorem print_message_mixed_total_nz o addr tvs :
+  Forall (goodtv o) tvs -> nozmix (scalars tvs) -> Z.of_nat (length (flat tvs)) < 2 ^ 31 ->
+  exists text w, print_message o addr (flat tvs) 0 = Some (text, w).
+Proof.
+  intros Hg Hnz. destruct (zero_choice o (scalars tvs) (goodtv_scalars o tvs Hg) Hnz) as (zf & zd & Hz & Hg').
+  exact (print_message_mixed_total (fun _ => 0) (fun _ => 0) o zf zd Hz addr tvs (goodt_of o zf zd tvs Hg Hg')).
+Qed.
